@@ -1,9 +1,64 @@
-"""C01: the pieces of degree reduction that are within reach: the default penalty and (via C06) the AND gadget.
-The body of PUBO._reduce_degree (pair search with break, key rebuilding) is outside the supported subset and is
-decided by the bounded clauses only."""
+"""C01: degree reduction.
+
+Ghost assignments: x on the integer labels (the reduced form D and the re-keyed model), a on the model's own labels,
+linked by a(l) == x(mapping[l]) (`rlinked`).  F := den(D') - den(D) is what the call adds to D, at x.
+
+  never undercuts (default penalty):   F >= aden(self)            for every assignment x of model variables and ancillas
+  extends exactly:                     cons(reductions) ==> F == aden(self)
+                                       (cons: x[z] == x[p]*x[q] for every reduction (p, q) -> z the call made)
+  self, pairs unchanged (frame); for a QUBOMatrix target no key longer than 2 is ever written (no KeyError path)
+
+Within the proof the pair-frequency table is an opaque table (it only steers which pair is reduced first): the
+statements hold whatever pair the heuristic picks.  `pairs` hints and callable penalties are left to the bounded
+clauses.  The 'consequently' sentence of the property (same minimum, minimisers convert to minimisers) follows from
+the two clauses by the Lean lemma L16."""
 from vf.qvc.contracts import contract
 
 contract("qubovert._pubo:PUBO.default_lam", props=["C01"],
          instances=[{"v": "real"}], returns="real",
          ensures=["result >= v", "result >= -v", "result >= 1"],
          note="the default penalty dominates |v|, which is the hypothesis of the 'never undercuts' clause")
+
+_F = "(bden(D) - old(bden(D)))"
+_BP = ("((klen({vis}) == 0) if best_pair[1] is None else (inkey(best_pair[1][0], key) and inkey(best_pair[1][1], key) "
+       "and not has(reductions, best_pair[1])))")
+
+contract("qubovert._pubo:PUBO._reduce_degree", props=["C01"],
+         instances=[{"self": "model:" + c, "D": "model:" + d, "deg": g, "lam": l, "pairs": "none"}
+                    for c in ("PUBO", "PCBO")
+                    for d, g in (("PUBO", "const:2"), ("PUBO", "none"), ("PUBO", "int"))
+                    for l in ("none", "real")],
+         requires=["wf(self)", "wf(D)", "distinct(self, D)", "rlinked(self._mapping)",
+                   "keys_within(self, lset(self._mapping))", "mapvals_ok(self._mapping)",
+                   "lam is None or lam > 0",
+                   # with deg=None the target degree is the model's own degree attribute: the shapes verified are
+                   # those where it is at least 2 (a smaller one never triggers a reduction on a model whose degree
+                   # attribute bounds its keys - that case is left to the bounded clauses)
+                   "deg is not None or self._degree >= 2"],
+         raises=[("ValueError", "deg is not None and deg < 2")],
+         returns="none", modifies=["D"],
+         ensures=["implies(lam is None, %s >= aden(self))" % _F,
+                  "implies(cons(final('reductions')), %s == aden(self))" % _F, "wf(D)",
+                  # the ancilla labels the call drew are not labels of the model: every one is >= num_binary_variables
+                  # (and below the final counter)
+                  "vals_in(final('reductions'), self._num_binary_variables, final('ancilla'))"],
+         quick_instances=[0, 9],
+         loops={1: {"invariant": "bden(mapped_self) == aden(visited)"},
+                2: {"invariant": "True"},
+                3: {"invariant": "True"},
+                4: {"invariant": "implies(cons(reductions), %s == bden(visited)) and "
+                                 "implies(lam is None, %s >= bden(visited)) and wf(D) and " % (_F, _F) +
+                                 "vals_in(reductions, self._num_binary_variables, ancilla) and ancilla >= self._num_binary_variables",
+                    "vars": {"reductions": "inttable"}},
+                "w1": {"invariant": "implies(cons(reductions), %s == bden(visited4) and bmono(key) == bmono(pre(key))) and "
+                                    "implies(lam is None, %s + v * bmono(key) >= bden(visited4) + v * bmono(pre(key))) and wf(D) and " % (_F, _F) +
+                                    "vals_in(reductions, self._num_binary_variables, ancilla) and ancilla >= self._num_binary_variables"},
+                5: {"invariant": "not previously_used and not in_pairs and " + _BP.format(vis="visited"),
+                    "vars": {"best_pair": "bestpair2"}},
+                6: {"invariant": "not previously_used and not in_pairs and inkey(x, key) and " +
+                                 "((klen(visited5) == 0 and klen(visited) == 0) if best_pair[1] is None else "
+                                 "(inkey(best_pair[1][0], key) and inkey(best_pair[1][1], key) and not has(reductions, best_pair[1])))",
+                    "vars": {"best_pair": "bestpair2"}},
+                7: {"invariant": "bmono(key) == bmono(without(visited, x, y)) * (xv(z) if z_inserted else 1)"}},
+         budget={"paths": 600, "time": 1500, "parallel": 3},
+         note="nested pair search with break, while loop per term, key rebuilding")
